@@ -245,6 +245,19 @@ func (g G) Cons(depth int, o SchemaOpts) m.ConsM {
 		return c
 	default:
 		c := m.ConsM{K: "oneof"}
+		if g.Chance(35) {
+			// the common shape "a keyword / fixed value / type, or a literal of one type", members in any order
+			t := Pick(g, []cty.Type{cty.String, cty.Number, cty.Bool})
+			c.Elems = []m.ConsM{
+				Pick(g, []m.ConsM{{K: "keyword", Kw: "kw"}, {K: "litval", Val: ptrVal(m.ValOf(cty.StringVal("fixed")))}, {K: "typedecl"}}),
+				Pick(g, []m.ConsM{{K: "littype", Ty: m.TyOf(t)}, {K: "any", Ty: m.TyOf(t)}}),
+			}
+			if g.Chance(30) {
+				c.Elems = append(c.Elems, m.ConsM{K: "keyword", Kw: "other"})
+			}
+			c.Elems = Perm(g, c.Elems)
+			return c
+		}
 		n := g.Int(0, 3)
 		for i := 0; i < n; i++ {
 			c.Elems = append(c.Elems, g.Cons(depth-1, o))
@@ -252,6 +265,8 @@ func (g G) Cons(depth int, o SchemaOpts) m.ConsM {
 		return c
 	}
 }
+
+func ptrVal(v m.ValM) *m.ValM { return &v }
 
 // consLit only generates literal-ish constraints usable in both syntaxes.
 func (g G) consLit(depth int) m.ConsM {
